@@ -535,6 +535,58 @@ func ruleFastPath(p *Prog, r *Report) {
 		})...)
 	}
 	okA := len(okIfs) > 0 && !reachConstPhi(wp, wp.Blocks[0], nil, isSite, cutBranch(false, okIfs...))
+	// or the scan lives in a helper: a function returning a bool whose `false` is returned only through the exhausted edge
+	// of its own nextWordBreak scan and never from the edge on which a mandatory candidate was seen; the shortcut must then
+	// be reachable only through the false edge of a test of that result
+	mayReturnFalse := func(in ssa.Instruction) bool {
+		ret, ok := in.(*ssa.Return)
+		if !ok || len(ret.Results) != 1 {
+			return false
+		}
+		c, isC := ret.Results[0].(*ssa.Const)
+		return !(isC && c.Value != nil && c.Value.Kind() == constant.Bool && constant.BoolVal(c.Value))
+	}
+	isScanHelper := func(h *ssa.Function) bool {
+		if h == wp || h.Signature.Results().Len() != 1 || !types.Identical(h.Signature.Results().At(0).Type(), types.Typ[types.Bool]) {
+			return false
+		}
+		var hOk []*ssa.If
+		for _, c := range callsOf(h, nwb) {
+			hOk = append(hOk, ifsOn(h, func(v ssa.Value) bool {
+				ex, ok := v.(*ssa.Extract)
+				return ok && ex.Tuple == ssa.Value(c) && ex.Index == 1
+			})...)
+		}
+		if len(hOk) == 0 || reachConstPhi(h, h.Blocks[0], nil, mayReturnFalse, cutBranch(false, hOk...)) {
+			return false
+		}
+		nReq := 0
+		for _, iff := range ifsOn(h, func(v ssa.Value) bool { return fieldOf(v) == fReq || isLoadOfField(v, fReq) }) {
+			nReq++
+			if reachConstPhi(h, iff.Block().Succs[0], iff.Block(), mayReturnFalse, nil) {
+				return false
+			}
+		}
+		return nReq > 0
+	}
+	viaHelper := false
+	if !okA {
+		var hIfs []*ssa.If
+		for _, b := range wp.Blocks {
+			for _, in := range b.Instrs {
+				c, ok := in.(*ssa.Call)
+				if !ok {
+					continue
+				}
+				if h := c.Common().StaticCallee(); h != nil && h.Blocks != nil && fnPkg(h) == fnPkg(wp) && isScanHelper(h) {
+					hIfs = append(hIfs, ifsOn(wp, func(v ssa.Value) bool { return v == ssa.Value(c) })...)
+				}
+			}
+		}
+		if len(hIfs) > 0 && !reachConstPhi(wp, wp.Blocks[0], nil, isSite, cutBranch(false, hIfs...)) {
+			okA, viaHelper = true, true
+		}
+	}
 	r.Check(okA, rule, key+"/scan", p.Pos(wp.Pos()), "the shortcut is reachable only after nextWordBreak reported that no candidate is left")
 	// (B) not reachable from the edge on which a required candidate was seen
 	okB := true
@@ -545,7 +597,7 @@ func ruleFastPath(p *Prog, r *Report) {
 			okB = false
 		}
 	}
-	r.Check(okB && n > 0, rule, key+"/required", p.Pos(wp.Pos()), "the shortcut is not reachable from the edge on which a mandatory candidate was seen")
+	r.Check(okB && n > 0 || viaHelper, rule, key+"/required", p.Pos(wp.Pos()), "the shortcut is not reachable from the edge on which a mandatory candidate was seen")
 }
 
 func callsOf(f *ssa.Function, callee *ssa.Function) []*ssa.Call {
